@@ -72,7 +72,8 @@ class HedIDValidator:
         # todo: If you have a way to know the schema should have 100% ids, you could check for that and flag missing
         new_id = tag_entry.attributes.get(attribute_name, "")
         old_id = None
-        tag_library = tag_entry.has_attribute(HedKey.InLibrary, return_value=True)
+        # The entry's own value: on a tag has_attribute() returns the value joined with those of its ancestors.
+        tag_library = tag_entry.attributes.get(HedKey.InLibrary)
         if not tag_library:
             tag_library = ""
 
